@@ -263,8 +263,8 @@ func execHistory(wd *wdef, hist []int, trace io.Writer) explore.BFSOut {
 			txs = append(txs, buildTx(w, o, amt, fmt.Sprintf("c19-%s-%d", tag, k)))
 		}
 		b := harness.BlockSpec{Txs: txs}
-		if e.days > 0 {
-			b.Dt = time.Duration(e.days)*24*time.Hour + time.Hour
+		if e.hours > 0 {
+			b.Dt = time.Duration(e.hours) * time.Hour
 		}
 		wasTrivial := m.trivial
 		res, err := x.BlockAt(b, false, nil)
